@@ -31,6 +31,14 @@ R01b  wiring of LXR reporting (def-use on the source):
           while template-block indents are off) - an unlexable token is never dropped;
       (5) the ``lexer.lex`` call sits in a ``try`` whose handler for ``SQLLexError``
           (or a base class) appends the caught error to the returned list and returns.
+
+Spellings that are the same fact (each has a QUIET self-test variant): a test held in a boolean
+local (``sa/idioms.atoms_at``); conjunction / nested ifs / early ``continue`` / if-else;
+``indent_val != 0`` as truthiness; filter loop or list comprehension; the ``lexer.lex`` result
+unpacked or kept whole and subscripted (``_lex_part``); ``+=`` or ``extend``; the created error or
+the pattern literal passed through a local; keyword or positional arguments; the default matcher
+built in the assignment or in an ``if`` on the parameter; the handler returning ``[err]`` or a
+list it appended ``err`` to (on every path to each of its returns).
 """
 
 from __future__ import annotations
@@ -39,8 +47,9 @@ import ast
 import re
 from typing import Dict, List, Optional, Tuple
 
-from ..cfg import Branch, atoms, cfg_of, names_in, origins
+from ..cfg import Branch, atoms, cfg_of, origins
 from ..grammar import load_grammar
+from ..idioms import branch_atoms
 from ..index import AnalysisError, FuncNode, arg_of, call_name, calls_in, const, kwarg, last_attr, norm, short, walk_local
 from ..rx_lex import EMPTY, CharSet, PatternInfo, analyse, analyse_literal, char_name
 
@@ -439,6 +448,12 @@ def r01b(chk, repo, lr) -> None:
                             src = st.value.args[0]
                         if src is not None and _lex_part(lcfg, src, st, lc, 1):
                             adders.append(st)
+                        # ``errs = errs + lex_errors``: the list itself plus the lexer's errors
+                        tname = st.targets[0] if isinstance(st, ast.Assign) and len(st.targets) == 1 else (st.target if isinstance(st, ast.AnnAssign) else None)
+                        if isinstance(tname, ast.Name) and tname.id == ve.id and isinstance(st.value, ast.BinOp):
+                            ops = _add_operands(st.value)
+                            if any(isinstance(x, ast.Name) and x.id == ve.id for x in ops) and any(_lex_part(lcfg, x, st, lc, 1) for x in ops):
+                                adders.append(st)
                     direct = _lex_part(lcfg, ve, r, lc, 1)
                     if direct:
                         ok = True
@@ -454,6 +469,11 @@ def r01b(chk, repo, lr) -> None:
                                 continue
                             if o.kind == "expr" and isinstance(o.expr, ast.Subscript) and not o.path and _lex_part(lcfg, o.expr, o.stmt, lc, 1):
                                 continue
+                            if o.kind == "expr" and isinstance(o.expr, ast.BinOp) and not o.path and all(
+                                (isinstance(x, ast.Name) and x.id == ve.id) or (isinstance(x, ast.List) and not x.elts) or _lex_part(lcfg, x, o.stmt, lc, 1)
+                                for x in _add_operands(o.expr)
+                            ):
+                                continue  # the list itself, extended by the lexer's errors
                             ok = False
                             why = f"the returned error list is re-bound to {short(o.expr, 60)!r}"
                         for n in walk_local(lf):
@@ -474,30 +494,11 @@ def r01b(chk, repo, lr) -> None:
                 _token_filter(chk, lf, lcfg, r, r.value.elts[0], lc)
 
 
-def _atoms_at(cfg, test, polarity, at, _depth=0):
-    """``atoms`` of a test evaluated at statement ``at``, looking through boolean locals:
-    for ``t = a and b`` ... ``if t:`` the atoms are those of ``a and b``.  Only when the one
-    definition of ``t`` reaches the test and no name its expression reads is re-bound in
-    between (same reaching definitions at both statements), so the facts still speak about
-    the same values."""
-    out = []
-    rd = cfg.reaching()
-    for e, pol in atoms(test, polarity):
-        if isinstance(e, ast.Name) and _depth < 4:
-            os_ = origins(cfg, e, at)
-            if len(os_) == 1 and os_[0].kind == "expr" and not os_[0].path and os_[0].stmt is not None and isinstance(os_[0].expr, (ast.BoolOp, ast.UnaryOp, ast.Compare, ast.Call, ast.Attribute)):
-                o = os_[0]
-                if all(rd.defs_at(o.stmt, n) == rd.defs_at(at, n) for n in names_in(o.expr)):
-                    out += _atoms_at(cfg, o.expr, pol, o.stmt, _depth + 1)
-                    continue
-        out.append((e, pol))
-    return out
-
-
-def _branch_atoms(cfg, br):
-    if not isinstance(br.stmt, (ast.If, ast.While)):
-        return []
-    return _atoms_at(cfg, br.stmt.test, br.polarity, br.stmt)
+def _add_operands(e) -> list:
+    """operands of ``a + b + ..`` (anything else: the expression itself)"""
+    if isinstance(e, ast.BinOp) and isinstance(e.op, ast.Add):
+        return _add_operands(e.left) + _add_operands(e.right)
+    return [e]
 
 
 def _lex_part(cfg, e, at, lex_call, idx) -> bool:
@@ -506,7 +507,9 @@ def _lex_part(cfg, e, at, lex_call, idx) -> bool:
     if e is lex_call:
         return idx is None
     if isinstance(e, ast.Subscript):
-        return idx is not None and const(e.slice) in (idx, idx - 2) and _lex_part(cfg, e.value, at, lex_call, None)
+        k = e.slice
+        pos = -const(k.operand) if isinstance(k, ast.UnaryOp) and isinstance(k.op, ast.USub) and isinstance(const(k.operand), int) else const(k)
+        return idx is not None and isinstance(pos, int) and not isinstance(pos, bool) and pos in (idx, idx - 2) and _lex_part(cfg, e.value, at, lex_call, None)
     if isinstance(e, ast.Name):
         os_ = origins(cfg, e, at)
         want = () if idx is None else (idx,)
@@ -609,10 +612,10 @@ def _error_site(vf, vcfg, params, c):
     var = loop.target.id
 
     def not_that_type(br):
-        return any((not pol) and _is_type_call(e, var) for e, pol in _branch_atoms(vcfg, br))
+        return any((not pol) and _is_type_call(e, var) for e, pol in branch_atoms(vcfg, br))
 
     for gd in vcfg.guards(st):
-        for e, pol in _branch_atoms(vcfg, gd):
+        for e, pol in branch_atoms(vcfg, gd):
             if pol and _is_type_call(e, var):
                 tts.append([const(a) for a in e.args])
     if not _skips_only_through(vcfg, loop, st, not_that_type):
@@ -718,7 +721,7 @@ def _token_filter(chk, lf, lcfg, ret, tok_expr: ast.Name, lex_call) -> None:
         # every way of finishing an iteration without the append must have passed a test that
         # is only true for meta segments (`<segment>.is_meta`): the template-indent filter
         def meta_only(br, var=var):
-            return _meta_fact(_branch_atoms(lcfg, br), var)
+            return _meta_fact(branch_atoms(lcfg, br), var)
 
         if not _skips_only_through(lcfg, loop, st, meta_only):
             ok, why = False, f"a lexed token can be left out of the returned list without the test {var}.is_meta being true (only template-indent metas may be filtered)"
@@ -727,7 +730,7 @@ def _token_filter(chk, lf, lcfg, ret, tok_expr: ast.Name, lex_call) -> None:
         # ... and, among the metas, only Indent/Dedent (indent_val != 0): a template placeholder is a
         # zero-width meta too, but it is what covers the source characters of a template tag
         def indent_only(br, var=var):
-            return isinstance(br.stmt, (ast.If, ast.While)) and _indent_fact(lcfg, _branch_atoms(lcfg, br), br.stmt, var)
+            return isinstance(br.stmt, (ast.If, ast.While)) and _indent_fact(lcfg, branch_atoms(lcfg, br), br.stmt, var)
 
         if not _skips_only_through(lcfg, loop, st, indent_only):
             ok, why = False, (
@@ -829,6 +832,12 @@ VARIANTS = [
         "            segments, lex_vs = lexer.lex(templated_file)\n            # NOTE: There will always be segments, even if it's\n            # just an end of file marker.\n            assert segments, \"The token sequence should never be empty.\"\n            # We might just get the violations as a list\n            violations += lex_vs\n",
         "            segments, lexing_errors = lexer.lex(templated_file)\n            violations.extend(lexing_errors)\n            assert segments, \"The token sequence should never be empty.\"\n",
         "QUIET", None, "renamed local, += spelled as extend, independent statements reordered (an AssertionError escapes either way)",
+    ),
+    Variant(
+        "quiet-lex-errors-added-in-try-else", LINTER,
+        "            segments, lex_vs = lexer.lex(templated_file)\n            # NOTE: There will always be segments, even if it's\n            # just an end of file marker.\n            assert segments, \"The token sequence should never be empty.\"\n            # We might just get the violations as a list\n            violations += lex_vs\n            linter_logger.info(\"Lexed segments: %s\", [seg.raw for seg in segments])\n        except SQLLexError as err:  # pragma: no cover\n            linter_logger.info(\"LEXING FAILED! (%s): %s\", templated_file.fname, err)\n            violations.append(err)\n            return None, violations\n",
+        "            segments, lex_vs = lexer.lex(templated_file)\n        except SQLLexError as err:  # pragma: no cover\n            linter_logger.info(\"LEXING FAILED! (%s): %s\", templated_file.fname, err)\n            violations.append(err)\n            return None, violations\n        else:\n            assert segments, \"The token sequence should never be empty.\"\n            violations = violations + lex_vs\n            linter_logger.info(\"Lexed segments: %s\", [seg.raw for seg in segments])\n",
+        "QUIET", None, "only lexer.lex can raise SQLLexError: the rest of the try body moved to its else clause; += spelled as x = x + y (no alias of the list exists)",
     ),
     Variant(
         "quiet-handler-returns-fresh-list", LINTER,
